@@ -78,7 +78,8 @@ CHECKS = {
               "assumptions (and, under them, guarantees) hold at a behaviour exactly when the originals hold at the renamed behaviour, "
               "for single renamings and sequences (composition of substitutions, swaps through a temporary name), with the prescribed "
               "interface update, identity on absent variables and IncompatibleArgs on clashes. rename_variables replayed through the "
-              "model; results compared with explicit substitution, exactly."),
+              "model; results compared with explicit substitution, exactly. C16_code_rename_variable: PolyhedralTerm.rename_variable "
+              "as translated from polyhedra.py on this run (gen/TermGen.v) equals the model function (T1 tie)."),
         design="4 (C16)", note=NOTE_R),
     "C19": dict(
         technique="Coq proof over the regenerated IoContract.__eq__/__hash__ (T1) and the term model + pairwise observation of == and hash() on real objects",
@@ -86,7 +87,8 @@ CHECKS = {
               "__eq__, so comparing the wrong field breaks it), reflexivity/symmetry/transitivity at term, list and contract level, "
               "equal objects have equal hash keys, copies are equal (props/C19.v). Real objects: every single-field edit compares "
               "unequal both ways, copies / twins / dictionary round trips equal and hash equally, transitivity on generated triples; "
-              "the same pairs decided by the model inside Coq."),
+              "the same pairs decided by the model inside Coq. C19_code_term_eq/_copy/_init: PolyhedralTerm.__eq__, copy and the "
+              "constructor as translated from polyhedra.py on this run equal the model functions (T1 tie)."),
         design="4 (C19)", note=NOTE_R + " hash(x) = H(key x) for an arbitrary H; signed zero outside the model."),
     "C03": dict(
         technique="Coq proof about a hand-written executable model + correspondence with LP replay + certified exact oracle",
@@ -103,14 +105,17 @@ CHECKS = {
               "them that mention no eliminated variable; each of the five tactics is proved implication-preserving (Kaykobad cone "
               "lemma for arbitrary n, LP bound, change of variable, substitution chains by induction on fuel, LP-active rows with "
               "sign-checked multipliers). The model is replayed on the implementation's recorded LP answers and must reproduce terms "
-              "(1e-9) and tactic numbers exactly; C04 is also decided exactly on every implementation result."),
+              "(1e-9) and tactic numbers exactly; C04 is also decided exactly on every implementation result. C04_code_*: the term "
+              "arithmetic the tactics use (isolate_variable, substitute_variable, remove_variable, multiply, __add__, "
+              "get_coefficient, contains_var, vars) as translated from polyhedra.py on this run equals the model functions (T1 tie)."),
         design="4 (C04)", note=NOTE_R + " sympy.solve is replaced in the model by exact Gauss-Jordan (solutions compared at 1e-9); inputs must not use the reserved variable name '_' (C04_underscore_is_reserved shows why)."),
     "C09": dict(
         technique="Coq proof about hand-written executable models (PEG parser, folding actions) + exhaustive/differential correspondence + exact semantic oracle",
         text=("Theorems C09_fold_sound (for every syntax tree of the grammar: the polyhedral terms produced by the folding parse "
               "actions hold at a real point exactly when the written relation holds under ordinary real arithmetic), C09_parse_sound "
               "(its composition with the parser model), C09_convex (convexity error iff an absolute term ends up with a non-positive "
-              "coefficient), C09_parser_total and the whitespace-insensitivity theorems (props/C09.v). model/Grammar.v is validated "
+              "coefficient), C09_string_errors (every string is read or rejected with the syntax / convexity error, nothing else), "
+              "C09_parser_total and the whitespace-insensitivity theorems (props/C09.v). model/Grammar.v is validated "
               "against the real pyparsing grammar on every token string up to length 3/4 and random strings; model/Syntax.v against the "
               "real parse actions; end to end the implementation must agree with parse_terms and with an independent exact decision "
               "of the relation's meaning over all real points."),
@@ -120,7 +125,11 @@ CHECKS = {
         text=("Theorems C10_machine_roundtrip / C10_machine_file_roundtrip (from_dict (to_machine_dict c) = c, file form read back), "
               "C10_fmt4_value and the round4 laws (the printed %.4g number is exactly a symmetric, idempotent 4-significant-digit "
               "rounding), C10_partition, C10_print_meaning_rounded / _exact (the printed strings, read as syntax trees, mean the "
-              "constraints with every number rounded as printed; exactly opposite pairs fold without loss) (props/C10.v). "
+              "constraints with every number rounded as printed; exactly opposite pairs fold without loss) (props/C10.v); "
+              "C10_string_roundtrip / _exact / _tree / _number (props/C10b.v): every STRING the printer emits is read back by the "
+              "character-level grammar model as the printer's tree (literals normalised), so parsing all printed strings gives terms "
+              "meaning the 4-digit rounding of the original (exactly the original for exactly printable numbers and pairs), for "
+              "every printable list over grammar-readable variable names. "
               "model/Printer.v agrees with Python character for character on doubles across decades/ties/switch-overs and on "
               "to_str_list; model/Json.v agrees on dictionaries; real round trips through dicts, strings and files are re-decided exactly."),
         design="4 (C10)", note=NOTE_R + " The string round trip uses the real parser (model: C09); -0.0/NaN/inf outside the models."),
@@ -152,7 +161,8 @@ CHECKS = {
         technique="Coq proof over models with explicit escape sites + exhaustive fault enumeration through real files + exception classification",
         text=("Theorems of props/C14.v: the algebra layer (regenerated from source) yields only IncompatibleArgs or an error of a "
               "primitive; elimination, simplify, refines, optimize, contains_behavior of the polyhedral model yield only ValueErr (the "
-              "remaining escape kinds are pinned to causes: IndexError/fuel only inside tactic 4's recursion); for ANY json value the "
+              "remaining escape kinds are pinned to causes: IndexError/fuel only inside tactic 4's recursion); C14_strings: for EVERY "
+              "string the parsing entry point fails only with the syntax or convexity error; for ANY json value the "
               "machine reader returns a contract of exactly the required shape or FormatErr/ValueErr/IncompatibleArgs. Every single-"
               "field deletion and kind change of valid dictionaries in both representations is enumerated through real files, and "
               "every public operation is run on adversarial shapes with operands snapshotted around failing calls."),
